@@ -76,6 +76,11 @@ func Load(repoDir, goos string, overlay map[string][]byte) (*Ctx, error) {
 	if len(pkgs) == 0 {
 		return nil, fmt.Errorf("no packages loaded from %s", repoDir)
 	}
+	return finishLoad(repoDir, goos, pkgs, t0)
+}
+
+// finishLoad turns type-checked packages into the analysable program.
+func finishLoad(repoDir, goos string, pkgs []*packages.Package, t0 time.Time) (*Ctx, error) {
 	c := &Ctx{RepoDir: repoDir, All: map[string]*packages.Package{}, SSA: map[string]*ssa.Package{}, funcCache: map[string]*ssa.Function{}, GOOS: goos}
 	var errs []string
 	packages.Visit(pkgs, nil, func(p *packages.Package) {
